@@ -234,6 +234,11 @@ Theorem null_ignores_setattr_refuted_lemma :
     dget "num_bins" (null_kwargs o') = Some (VInt 10) /\ dget "num_bins" ck = Some (VInt 5).
 Proof. do 3 eexists. repeat split; vm_compute; reflexivity. Qed.
 
+Theorem null_ignores_setattr_mmd_refuted_lemma :
+  exists o o' ck, construct MMD [] = Ok o /\ assign_attr o "kernel" (VFun 7) = Ok o' /\ compare_kwargs o' [] = Ok ck /\
+    dget "kernel" (null_kwargs o') = Some (VFun 0) /\ dget "kernel" ck = Some (VFun 7).
+Proof. do 3 eexists. repeat split; vm_compute; reflexivity. Qed.
+
 Local Close Scope string_scope.
 
 (** * Part 2 — permutation *)
